@@ -421,10 +421,19 @@ fn small_scope(ctx: &mut Ctx, n: usize, menu: &[(usize, u8)]) {
             addmul(hi, &t1, cf);
         }
         let ncalls = 2 * n;
-        let seqs = crate::sched::sequences(menu.len(), ncalls);
-        let t = seqs
-            .par_iter()
-            .map(|seq| {
+        // sequences are decoded from their index on the fly (43M sequences at n = 8 must not be materialised)
+        let total_seqs = (menu.len() as u64).pow(ncalls as u32);
+        let msize = menu.len() as u64;
+        let t = (0..total_seqs)
+            .into_par_iter()
+            .map(|idx| {
+                let mut seq_v = vec![0usize; ncalls];
+                let mut k = idx;
+                for i in (0..ncalls).rev() {
+                    seq_v[i] = (k % msize) as usize;
+                    k /= msize;
+                }
+                let seq = &seq_v;
                 let mut t = Tally::default();
                 t.cases += 1;
                 t.calls += 1;
